@@ -138,12 +138,18 @@ def real_run(griffe, taps, case: dict, place: str, order: str, base: str, tgt0: 
     tgt = spec_tgt(out.get("tgt"))
     if tgt is None:      # load() raised: the target module is still in the loader, project it from there
         tgt = spec_tgt(out.get("tgt_after_error"))
-    derefs = {(SITE.get(x["site"], x["site"]), x["alias"], x["ok"]) for x in out["derefs"]}
+    derefs = {(SITE.get(x["site"], x["site"]) if taps.sites_ok else "?", x["alias"], x["ok"]) for x in out["derefs"]}
     return {"place": place, "order": order, "req": req, "file": {"py": "R", "pyi": "S"}.get(out.get("file"), "nil"), "err": err,
             "raised": any(e is not None for e in out["merge_exc"]),
             "derefs": sorted(({"alias": a, "site": s, "ok": ok} for s, a, ok in derefs), key=str),
             "tree": tree, "tgt_same": tgt == tgt0, "tgt": None if tgt == tgt0 else tgt,
             "trace": out["steps"], "merges": out["merges"], "exc_text": out.get("exc_text", "")}
+
+
+def _derefs_agree(real: list, imp: list, sites_ok: bool) -> bool:
+    if sites_ok:
+        return real == imp
+    return sorted({(d["alias"], d["ok"]) for d in real}) == sorted({(d["alias"], d["ok"]) for d in imp})
 
 
 def _tagstr(case: dict) -> str:
@@ -197,11 +203,12 @@ def check_case(griffe, taps, case: dict, base: str) -> dict:
                 what = (f"{c} broken at {got[c]} (model: {mine[c] or 'holds'}) for a={_cell(case['a'])} b={_cell(case['b'])} mdoc={case['mdoc']} "
                         f"place={real['place']} order={real['order']} req={real['req']} err={real['err']} {real['exc_text'][:80]}")
                 rep["violations"].append((sig, what))
-        same = all(real[k] == imp[k] for k in ("file", "err", "raised", "derefs", "tree", "tgt_same", "trace"))
+        keys = ["file", "err", "tree", "tgt_same"] + (["trace"] if taps.trace_ok else []) + (["raised"] if taps.merge_tap else [])
+        same = all(real[k] == imp[k] for k in keys) and _derefs_agree(real["derefs"], imp["derefs"], taps.sites_ok)
         if same and not real["tgt_same"]:
             same = real["tgt"] == imp["tgt"]
         if not same:
-            diff = [k for k in ("file", "err", "raised", "derefs", "tree", "tgt_same", "tgt", "trace") if real.get(k) != imp.get(k)]
+            diff = [k for k in keys + ["derefs", "tgt"] if real.get(k) != imp.get(k)]
             rep["drift"].append(f"{_cell(case['a'])} | {_cell(case['b'])} {real['place']}/{real['order']}/{real['req']}: real differs from Impl in {diff}")
         if real["err"] != "none":
             rep["facts"].add("load-raised")
